@@ -339,9 +339,12 @@ def _any_sym(items):
 def linspace(start, stop, num=50, endpoint=True, **kw):
     """np.linspace; numpy's version branches on `step == 0`, which forks on symbolic end points."""
     CALLS[0] += 1
-    if not (is_symbolic(start) or is_symbolic(stop) or getattr(np.asarray(start), "dtype", None) == object
-            or getattr(np.asarray(stop), "dtype", None) == object):
-        return np.linspace(start, stop, num=num, endpoint=endpoint, **kw)
+    if not (is_symbolic(start) or is_symbolic(stop)):
+        a0, b0 = np.asarray(start), np.asarray(stop)
+        was_object = a0.dtype == object or b0.dtype == object
+        r = np.linspace(_to_float_array(a0) if a0.dtype == object else start, _to_float_array(b0) if b0.dtype == object else stop,
+                        num=num, endpoint=endpoint, **kw)
+        return r.astype(object) if was_object else r
     if kw:
         raise Unsupported("np.linspace with extra arguments on symbolic data")
     a, b = np.asarray(start, dtype=object), np.asarray(stop, dtype=object)
